@@ -322,7 +322,12 @@ def check_property(prop, tier, a):
         hb, hn = src_base.get(key), src_now.get(key)
         if r is None or not (hb and hn and hb != hn) or not (r['unsupported'] or r['errors']):
             continue
-        why = '; '.join(sorted({u['why'] for u in r['unsupported']} | {e['why'] for e in r['errors']}))[:300]
+        whys = {u['why'] for u in r['unsupported']} | {e['why'] for e in r['errors']}
+        if any('not bound' in w for w in whys):
+            # a loop invariant / postcondition names a local variable that no longer exists (renamed): the contract text does not fit
+            # the code any more - a limit of the sidecar contract, not a verdict about the code: undecided
+            continue
+        why = '; '.join(sorted(whys))[:300]
         rec = {'property': prop, 'kind': 'obligation-not-discharged', 'contract': key, 'obligation': oid, 'function': r.get('target'),
                'tier': 'T1', 'backend': 'pyvc / z3 ' + z3_version(), 'solver_answer': 'not generated: ' + why,
                'baseline_verdict': 'proved', 'code_hash_baseline': hb, 'code_hash_now': hn, 'model': None,
